@@ -45,14 +45,56 @@ func init() {
 
 const (
 	ElemSize   = 40
-	PointSize  = 160
 	ScalarSize = 32
 )
 
+// PointSize is the size of edwards25519.Point: four field elements, plus any
+// pointer-free auxiliary fields the tree being checked may have added (set by
+// Guard).
+var PointSize uintptr = 4 * ElemSize
+
 type Limbs [5]uint64
 
-// PointRaw is the raw limb content of a Point.
-type PointRaw struct{ X, Y, Z, T Limbs }
+// PointRaw is the raw content of a Point: the limbs of its four coordinates
+// and, when the tree's Point carries auxiliary fields (a cached encoding, a
+// flag, ...), the bytes of everything else in the struct. Aux is opaque to the
+// harness: it is copied along with the coordinates, compared bit for bit, and
+// all-zero ("" is shorthand for all-zero) in points the harness builds itself.
+type PointRaw struct {
+	X, Y, Z, T Limbs
+	Aux        string
+}
+
+// auxSpans are the byte ranges [lo, hi) of Point that are not coordinates.
+var (
+	auxSpans [][2]uintptr
+	auxLen   int
+)
+
+// AuxLen reports how many bytes of auxiliary state a Point carries.
+func AuxLen() int { return auxLen }
+
+func pointerFree(t reflect.Type) bool {
+	switch t.Kind() {
+	case reflect.Bool, reflect.Int, reflect.Int8, reflect.Int16, reflect.Int32, reflect.Int64,
+		reflect.Uint, reflect.Uint8, reflect.Uint16, reflect.Uint32, reflect.Uint64, reflect.Uintptr,
+		reflect.Float32, reflect.Float64, reflect.Complex64, reflect.Complex128:
+		return true
+	case reflect.Array:
+		return t.Len() == 0 || pointerFree(t.Elem())
+	case reflect.Struct:
+		if t.PkgPath() == "sync" || t.PkgPath() == "sync/atomic" {
+			return false
+		}
+		for i := 0; i < t.NumField(); i++ {
+			if !pointerFree(t.Field(i).Type) {
+				return false
+			}
+		}
+		return true
+	}
+	return false
+}
 
 type ScalarRaw [4]uint64
 
@@ -81,23 +123,31 @@ func Guard() error {
 		return fmt.Errorf("field.Element (%s) is neither five uint64 fields nor [5]uint64", et)
 	}
 	pt := reflect.TypeOf(edwards25519.Point{})
-	if pt.Kind() != reflect.Struct || pt.Size() != PointSize {
-		return fmt.Errorf("Point has size %d, expected %d", pt.Size(), PointSize)
+	if pt.Kind() != reflect.Struct {
+		return fmt.Errorf("Point is a %s, expected a struct", pt.Kind())
 	}
 	// the four coordinates are found by name (x, y, z, t, or names ending in those
 	// letters), in whatever order they are declared; with other names the
 	// declaration order X, Y, Z, T is assumed. Either way the value cross-check
 	// below (known points with Z = 1 and T = XY != Z) must confirm the reading.
+	// Any other field is auxiliary state: accepted when it is pointer-free (it is
+	// then carried along as opaque bytes), otherwise the layout is unsupported.
 	var elems []reflect.StructField
 	for i := 0; i < pt.NumField(); i++ {
 		f := pt.Field(i)
 		if f.Type.Size() == 0 {
 			continue
 		}
-		if f.Type != et || f.Offset%8 != 0 {
-			return fmt.Errorf("Point field %s %s at %d does not match the assumed layout", f.Name, f.Type, f.Offset)
+		if f.Type == et {
+			if f.Offset%8 != 0 {
+				return fmt.Errorf("Point field %s %s at %d does not match the assumed layout", f.Name, f.Type, f.Offset)
+			}
+			elems = append(elems, f)
+			continue
 		}
-		elems = append(elems, f)
+		if !pointerFree(f.Type) {
+			return fmt.Errorf("Point has size %d, expected %d: auxiliary field %s %s is not pointer-free and cannot be carried along as opaque bytes", pt.Size(), 4*ElemSize, f.Name, f.Type)
+		}
 	}
 	if len(elems) != 4 {
 		return fmt.Errorf("Point has %d coordinate fields", len(elems))
@@ -119,6 +169,27 @@ func Guard() error {
 		if skipCrossCheck {
 			return fmt.Errorf("Point coordinate fields are not called x, y, z, t and the assumed order cannot be verified without calling the library")
 		}
+	}
+	PointSize = pt.Size()
+	auxSpans, auxLen = nil, 0
+	covered := make([]bool, PointSize)
+	for _, o := range pointOff {
+		for i := uintptr(0); i < ElemSize; i++ {
+			covered[o+i] = true
+		}
+	}
+	for i := uintptr(0); i < PointSize; {
+		if covered[i] {
+			i++
+			continue
+		}
+		j := i
+		for j < PointSize && !covered[j] {
+			j++
+		}
+		auxSpans = append(auxSpans, [2]uintptr{i, j})
+		auxLen += int(j - i)
+		i = j
 	}
 	st := reflect.TypeOf(edwards25519.Scalar{})
 	if st.Kind() != reflect.Struct || st.NumField() != 1 || st.Size() != ScalarSize {
@@ -227,10 +298,70 @@ func crossCheck() error {
 			return fmt.Errorf("alpha cross-check: Point coordinate fields have unknown names and do not read as (X, Y, Z, T) in declaration order")
 		}
 	}
+	if auxLen > 0 {
+		if err := auxNeutral(); err != nil {
+			return err
+		}
+	}
 	// Point: no value cross-check on purpose. Producing any Point needs the
 	// library's field arithmetic; if that is broken the failure must surface
 	// as a violation in the checks, not as "cannot observe". The reflect guard
 	// above pins the layout (fields x, y, z, t of type field.Element).
+	return nil
+}
+
+// auxNeutral establishes that the auxiliary state a Point carries is neutral
+// when it is all zero: the harness builds points directly in memory (from
+// reference values) with zero auxiliary bytes, and that is only sound when
+// such a point behaves like one the API produced with the same coordinates.
+// A tree where it does not (say, an "initialised" flag set by constructors)
+// stays unsupported (INCONCLUSIVE), as every changed layout was before.
+func auxNeutral() (err error) {
+	defer func() {
+		if x := recover(); x != nil {
+			err = fmt.Errorf("Point has size %d, expected %d: a point with zeroed auxiliary fields makes the library panic (%v); the auxiliary state cannot be treated as opaque", PointSize, 4*ElemSize, x)
+		}
+	}()
+	bad := func(what string) error {
+		return fmt.Errorf("Point has size %d, expected %d: a point with zeroed auxiliary fields behaves differently from an API-produced point with the same coordinates (%s); the auxiliary state cannot be treated as opaque", PointSize, 4*ElemSize, what)
+	}
+	g := edwards25519.NewGeneratorPoint()
+	g2 := new(edwards25519.Point).Add(g, g)
+	g3 := new(edwards25519.Point).Add(g2, g)
+	enc := g3.Bytes()
+	d, e := new(edwards25519.Point).SetBytes(enc)
+	if e != nil {
+		return nil // broken decoding is the checks' business, not the guard's
+	}
+	for _, p := range []*edwards25519.Point{g, g2, g3, d, edwards25519.NewIdentityPoint(), new(edwards25519.Point).Negate(g2)} {
+		r := PointLimbs(p)
+		r.Aux = ""
+		q := new(edwards25519.Point)
+		SetPointLimbs(q, r)
+		if string(p.Bytes()) != string(q.Bytes()) {
+			return bad("Bytes")
+		}
+		if p.Equal(q) != 1 || q.Equal(p) != 1 {
+			return bad("Equal")
+		}
+		a, b := new(edwards25519.Point).Add(p, g), new(edwards25519.Point).Add(q, g)
+		if string(a.Bytes()) != string(b.Bytes()) {
+			return bad("Add")
+		}
+		a, b = new(edwards25519.Point).Negate(p), new(edwards25519.Point).Negate(q)
+		if string(a.Bytes()) != string(b.Bytes()) {
+			return bad("Negate")
+		}
+		a, b = new(edwards25519.Point).Set(p), new(edwards25519.Point).Set(q)
+		if string(a.Bytes()) != string(b.Bytes()) {
+			return bad("Set")
+		}
+		x1, y1, z1, t1 := p.ExtendedCoordinates()
+		x2, y2, z2, t2 := q.ExtendedCoordinates()
+		if x1.Equal(x2)&y1.Equal(y2)&z1.Equal(z2)&t1.Equal(t2) != 1 {
+			return bad("ExtendedCoordinates")
+		}
+	}
 	return nil
 }
 
@@ -251,10 +382,23 @@ var pointOff = [4]uintptr{0, ElemSize, 2 * ElemSize, 3 * ElemSize}
 func PointLimbs(p *edwards25519.Point) PointRaw {
 	mustOK()
 	b := unsafe.Pointer(p)
-	return PointRaw{
+	r := PointRaw{
 		X: *(*Limbs)(unsafe.Add(b, pointOff[0])), Y: *(*Limbs)(unsafe.Add(b, pointOff[1])),
 		Z: *(*Limbs)(unsafe.Add(b, pointOff[2])), T: *(*Limbs)(unsafe.Add(b, pointOff[3])),
 	}
+	if auxLen > 0 {
+		buf := make([]byte, 0, auxLen)
+		for _, sp := range auxSpans {
+			buf = append(buf, unsafe.Slice((*byte)(unsafe.Add(b, sp[0])), sp[1]-sp[0])...)
+		}
+		for _, x := range buf {
+			if x != 0 {
+				r.Aux = string(buf)
+				break
+			}
+		}
+	}
+	return r
 }
 
 // SetPointLimbs overwrites the coordinates of p in memory.
@@ -264,6 +408,20 @@ func SetPointLimbs(p *edwards25519.Point, r PointRaw) {
 	*(*Limbs)(unsafe.Add(b, pointOff[1])) = r.Y
 	*(*Limbs)(unsafe.Add(b, pointOff[2])) = r.Z
 	*(*Limbs)(unsafe.Add(b, pointOff[3])) = r.T
+	if auxLen > 0 {
+		k := 0
+		for _, sp := range auxSpans {
+			dst := unsafe.Slice((*byte)(unsafe.Add(b, sp[0])), sp[1]-sp[0])
+			for i := range dst {
+				if len(r.Aux) == auxLen {
+					dst[i] = r.Aux[k]
+				} else {
+					dst[i] = 0
+				}
+				k++
+			}
+		}
+	}
 }
 
 func ScalarLimbs(s *edwards25519.Scalar) ScalarRaw {
